@@ -1,6 +1,153 @@
+/-
+  C15 — path helpers obey their inverse and containment laws on all UTF-8 input.
+  Property theorems ONLY (helper lemmas live in Rivia/Lemmas/*).
+-/
 import Rivia.Model.Path
 import Rivia.Spec.PathLaws
+import Rivia.Lemmas.PathLaws
+
 namespace Rivia.Props
-open Rivia Rivia.Spec
-theorem C15_placeholder : parsePaths = parsePathsSpec := rfl
+open Rivia Rivia.Spec Rivia.Str
+
+/-! ### mash -/
+
+/-- the components of `mash d p` are those of `d` followed by those of `p` with every leading
+    separator removed -/
+theorem C15_mash_components (d p : Str) : components (mash d p) = mashComps d p :=
+  Lemmas.mash_components d p
+
+/-- so the result always stays lexically under `d` -/
+theorem C15_mash_stays_under (d p : Str) (hd : d ≠ []) : components d <+: components (mash d p) :=
+  Lemmas.mash_stays_under d p hd
+
+/-- and is the canonical rendering (no trailing / repeated separator): re-collecting its
+    components gives the string back -/
+theorem C15_mash_canonical (d p : Str) : render (components (mash d p)) = mash d p :=
+  Lemmas.mash_canonical d p
+
+/-! ### trim_prefix / trim_suffix (the byte-slicing code as written, `none` = panic) -/
+
+theorem C15_trim_prefix_eq_spec (p s : Str) : trimPrefixO p s = some (trimPrefixSpec p s) :=
+  Lemmas.trimPrefixO_eq_spec p s
+theorem C15_trim_prefix_inverse (s p : Str) : trimPrefixO (s ++ p) s = some p :=
+  Lemmas.trimPrefixO_append s p
+theorem C15_trim_prefix_unchanged (p s : Str) (h : ¬ s <+: p) : trimPrefixO p s = some p :=
+  Lemmas.trimPrefixO_of_not_prefix h
+theorem C15_trim_suffix_eq_spec (p s : Str) : trimSuffixO p s = some (trimSuffixSpec p s) :=
+  Lemmas.trimSuffixO_eq_spec p s
+theorem C15_trim_suffix_inverse (p s : Str) : trimSuffixO (p ++ s) s = some p :=
+  Lemmas.trimSuffixO_append p s
+theorem C15_trim_suffix_unchanged (p s : Str) (h : ¬ s <:+ p) : trimSuffixO p s = some p :=
+  Lemmas.trimSuffixO_of_not_suffix h
+
+/-! ### ext / trim_ext / name -/
+
+/-- domain of the two laws below: the string ends with its last component (no trailing
+    separator or `/.`); outside it: known finding `trim_ext_trailing_sep` -/
+def EndsWithFileName (p : Str) : Prop := ∃ n, fileName p = some n ∧ n <:+ p
+
+def C15_trim_ext_ext_full : Prop :=
+  ∀ p e, ext p = .ok e → ∃ t, trimExt p = .ok t ∧ components (t ++ '.' :: e) = components p
+
+theorem C15_trim_ext_ext_partial (p e : Str) (h : ext p = .ok e) (hd : EndsWithFileName p) :
+    ∃ t, trimExt p = .ok t ∧ t ++ '.' :: e = p := by
+  obtain ⟨n, hn, hsuf⟩ := hd
+  obtain ⟨X, stem, hp, _, _, ht⟩ := Lemmas.trimExt_of_extension (Lemmas.ext_ok h) hn hsuf
+  exact ⟨X ++ stem, ht, hp.symm⟩
+
+/-- without an extension `trim_ext` is the identity -/
+theorem C15_trim_ext_no_ext (p : Str) (h : extension p = none) : trimExt p = .ok p :=
+  Lemmas.trimExt_no_ext h
+
+def C15_name_full : Prop := ∀ p, name p = nameSpec p
+
+/-- `name` is the last component without its extension; outside the domain: known findings
+    `trim_ext_trailing_sep` and `name_stem_is_dot` -/
+theorem C15_name_partial (p : Str) (hd : extension p = none ∨ EndsWithFileName p)
+    (hs : nameSpec p ≠ .ok ['.'] ∨ (components p).length < 2) : name p = nameSpec p := by
+  cases he : extension p with
+  | none => exact Lemmas.name_of_no_ext he
+  | some e =>
+    rcases hd with hd | ⟨n, hn, hsuf⟩
+    · rw [he] at hd; cases hd
+    · exact Lemmas.name_of_ext he hn hsuf hs
+
+theorem C15_finding_trim_ext_trailing_sep :
+    ext "a.b/".toList = .ok "b".toList ∧ trimExt "a.b/".toList = .ok "a.b/".toList ∧
+    name "a.b/".toList = .ok "a.b".toList ∧ nameSpec "a.b/".toList = .ok "a".toList := by decide
+
+theorem C15_finding_name_stem_is_dot :
+    name "/..a".toList = .ok "/".toList ∧ nameSpec "/..a".toList = .ok ".".toList := by decide
+
+theorem C15_trim_ext_ext_full_is_false : ¬ C15_trim_ext_ext_full := by
+  intro h
+  obtain ⟨t, ht, hc⟩ := h "a.b/".toList "b".toList (by decide)
+  have h1 : trimExt "a.b/".toList = .ok "a.b/".toList := by decide
+  rw [h1] at ht
+  simp only [Outcome.ok.injEq] at ht
+  subst ht
+  revert hc
+  decide
+
+theorem C15_name_full_is_false : ¬ C15_name_full := by
+  intro h
+  have := h "a.b/".toList
+  revert this
+  decide
+
+/-! ### dir/base, first/trim_first, last/trim_last split off exactly one component -/
+
+theorem C15_dir_splits_last (p d : Str) (h : dir p = .ok d) :
+    components d = (components p).dropLast ∧
+    ∃ c, (components p).getLast? = some c ∧ c ≠ .root ∧ base p = .ok c.str :=
+  Lemmas.dir_splits_last p d h
+
+theorem C15_dir_error_iff (p : Str) :
+    (∃ k, dir p = .err k) ↔ (components p = [] ∨ components p = [.root]) :=
+  Lemmas.dir_error_iff p
+
+theorem C15_base_is_last (p : Str) :
+    base p = Outcome.ofOption .iterItemNotFound ((components p).getLast?.map Comp.str) := by
+  unfold base; cases (components p).getLast? <;> rfl
+
+theorem C15_first_is_head (p : Str) :
+    first p = Outcome.ofOption .iterItemNotFound ((components p).head?.map Comp.str) := by
+  unfold first; cases (components p).head? <;> rfl
+
+theorem C15_trim_first_is_tail (p : Str) : components (trimFirst p) = (components p).tail :=
+  Lemmas.trimFirst_is_tail p
+
+theorem C15_trim_last_is_init (p : Str) : components (trimLast p) = (components p).dropLast :=
+  Lemmas.trimLast_is_init p
+
+theorem C15_last_eq_base (p : Str) : last p = base p := rfl
+
+/-! ### has / has_prefix / has_suffix agree with string containment -/
+
+theorem C15_has_iff (p v : Str) : has p v = true ↔ IsInfix v p := Lemmas.contains_iff p v
+theorem C15_has_prefix_iff (p v : Str) : hasPrefix p v = true ↔ ∃ b, p = v ++ b :=
+  Lemmas.hasPrefix_iff p v
+theorem C15_has_suffix_iff (p v : Str) : hasSuffix p v = true ↔ ∃ a, p = a ++ v :=
+  Lemmas.hasSuffix_iff p v
+
+/-! ### trim_protocol, concat, parse_paths -/
+
+theorem C15_trim_protocol (p : Str) : trimProtocol p = trimProtocolSpec p :=
+  Lemmas.trimProtocol_eq_spec p
+
+theorem C15_concat (p s : Str) : concat p s = p ++ s := rfl
+
+theorem C15_parse_paths (s : Str) : parsePaths s = (splitOn ':' s).filter (fun x => x ≠ []) := rfl
+
+/-- the pieces really are the `:`-separated segments: joining them back gives the input, and no
+    returned path is empty or contains `:` -/
+theorem C15_parse_paths_segments (s : Str) :
+    joinWith ':' (splitOn ':' s) = s ∧ ∀ x ∈ parsePaths s, x ≠ [] ∧ ':' ∉ x :=
+  Lemmas.parsePaths_segments s
+
+-- non-vacuity / sanity (tests, labelled as such)
+example : mash "/foo".toList "//bar".toList = "/foo/bar".toList := by decide
+example : EndsWithFileName "x/a.b".toList := ⟨"a.b".toList, by decide, by decide⟩
+example : trimProtocol "HTTPS://x//y".toList = "x//y".toList := by decide
+
 end Rivia.Props
